@@ -99,6 +99,9 @@ class MpUnReachNLRI(Attribute):
                         withdraw_list.append(nlri)
 
                 return dict(afi_safi=(afi, safi), withdraw=withdraw_list)
+            elif safi == safn.SAFNUM_MPLS_LABEL:
+                return dict(afi_safi=(afi, safi),
+                            withdraw=IPv4LabeledUnicast.parse(nlri_bin, addpath=add_path, iswithdraw=True))
             else:
                 return dict(afi_safi=(afn.AFNUM_INET, safi), withdraw=repr(nlri_bin))
         # for ipv6
@@ -109,6 +112,9 @@ class MpUnReachNLRI(Attribute):
             elif safi == safn.SAFNUM_LAB_VPNUNICAST:
                 return dict(afi_safi=(afi, safi), withdraw=IPv6MPLSVPN.parse(value=nlri_bin, iswithdraw=True,
                                                                              addpath=add_path))
+            elif safi == safn.SAFNUM_MPLS_LABEL:
+                return dict(afi_safi=(afi, safi),
+                            withdraw=IPv6LabeledUnicast.parse(nlri_bin, addpath=add_path, iswithdraw=True))
             else:
                 return dict(afi_safi=(afi, safi), withdraw=repr(nlri_bin))
         # for l2vpn
